@@ -12,7 +12,7 @@ TRUSTED = [
     "register map read off codegen.rs (rbx = context, rbp = tape pointer, rax/rcx scratch, temporaries 0..10 in r12-r15,rsi,rdi,rdx,r8-r11, >= 11 at [rsp+8t]) and Memory/Context field offsets 0/8/16/24",
     "bytecode step semantics (same as units u5/u9); temporaries are compared modulo 2^width",
     "instruction operands are ENUMERATED (register class x immediate class x offset class x live mask), not symbolic: a symbolic immediate makes the emitted length symbolic and Kani does not finish",
-    "call-making forms (checked Mov probe, Inp, Out: push/pop symmetry, alignment, runtime shims) are NOT modelled in this unit",
+    "runtime calls are modelled by the SysV contract: rsp 16-byte aligned, first argument = context, caller-saved registers (rax rcx rdx rsi rdi r8-r11) hold arbitrary values afterwards, callee-saved ones are preserved; the checked Mov probe/extend sequence is NOT modelled",
 ]
 
 HERE = os.path.dirname(os.path.abspath(__file__))
@@ -143,6 +143,11 @@ def _instances(tier, seed):
 
 BRANCHES = [("u6_brz_%s%s" % (w, "_limited" if lim else ""), w, True, lim) for w in ("u8", "u64") for lim in (False, True)] + \
            [("u6_brnz_%s%s" % (w, "_limited" if lim else ""), w, False, lim) for w in ("u16", "u32") for lim in (False, True)]
+IOCALLS = [("u6_%s_%s_%s_l%x" % ("inp" if inp else "out", w, ("m%d" % -i) if i < 0 else str(i), live), w, inp, i, live)
+           for (w, inp, i, live) in (("u8", False, 0, 0x0), ("u8", False, 1, 0x7ff), ("u64", False, -17, 0x10), ("u16", False, 2, 0x3f0),
+                                     ("u32", False, 16, 0x7f0), ("u64", False, 0, 0x550),
+                                     ("u8", True, 0, 0x0), ("u8", True, -1, 0x7ff), ("u64", True, 16, 0x20), ("u16", True, 2, 0x3f0),
+                                     ("u32", True, -16, 0x7f0), ("u64", True, 0, 0x2a0))]
 MOVS = [("u6_mov_unsafe_%s_%s" % (w, ("m%d" % -s) if s < 0 else str(s)), w, s) for w, s in (("u8", 1), ("u8", -1), ("u64", 3), ("u64", -200), ("u16", 100), ("u32", -2))]
 
 
@@ -158,6 +163,9 @@ def _cases(tier, seed):
             w, n.upper(), n, "true" if on_zero else "false", cond, "true" if lim else "false")))
     for n, w, sh in MOVS:
         cs.append((n, w, "Instr::Mov(%d)" % sh, 0xffff, 2, False, False, "-1", "1", "check_mov_unsafe::<%s, _>(&CODE_%s, run_%s, %d)" % (w, n.upper(), n, sh)))
+    for n, w, inp, idx, live in IOCALLS:
+        cs.append((n, w, "Instr::%s(%d)" % ("Inp" if inp else "Out", idx), live, 13, False, True, "-WCELLS", "WCELLS",
+                   "check_io_call::<%s, _>(&CODE_%s, run_%s, %s, %d, 0x%x)" % (w, n.upper(), n, "true" if inp else "false", idx, live)))
     return cs
 
 
@@ -168,7 +176,7 @@ use super::*;
 use crate::bc::{Instr, Loc, Program};
 VERIF_U6_MODEL
 fn dump<C: crate::CellType>(name: &str, instr: Instr<C>, live: u16, temps: usize, limited: bool, safe: bool, min: isize, max: isize) {
-    let branch = matches!(instr, Instr::BrZ(..) | Instr::BrNZ(..));
+    let branch = matches!(instr, Instr::BrZ(..) | Instr::BrNZ(..) | Instr::Inp(..) | Instr::Out(..));
     let prog = Program::<C> { temps, min_accessed: min, max_accessed: max, live: vec![live], insts: vec![instr] };
     let mut cg = CodeGen { locations: Vec::new(), reloc_br: Vec::new(), reloc_term: Vec::new(), term: 0, code: Vec::new() };
     let r = std::panic::catch_unwind(std::panic::AssertUnwindSafe(|| {
@@ -182,7 +190,22 @@ fn dump<C: crate::CellType>(name: &str, instr: Instr<C>, live: u16, temps: usize
     match r {
         Ok(()) => {
             println!("U6BYTES {} {}", name, cg.code.iter().map(|b| format!("{:02x}", b)).collect::<Vec<_>>().join(""));
-            println!("U6UOPS {} {}", name, decoder::decode(&cg.code).iter().map(|u| format!("{:?}", u)).collect::<Vec<_>>().join(" ;; "));
+            let mut uops = decoder::decode(&cg.code);
+            // resolve `mov rax, <address>; call rax` against the addresses of the three runtime shims
+            let shims = [hpbf_context_extend::<C> as usize as u64, hpbf_context_input::<C> as usize as u64, hpbf_context_output::<C> as usize as u64];
+            let mut last_rax: Option<u64> = None;
+            for u in uops.iter_mut() {
+                match *u {
+                    Uop::MovImm64 { reg: 0, imm } => { last_rax = Some(imm); *u = Uop::MovImm64 { reg: 0, imm: 0 }; }
+                    Uop::RmI { op: 2, ea: Opnd::Reg(0), imm, sz } => { last_rax = Some(if sz == 4 { imm as u32 as u64 } else { imm as u64 }); }
+                    Uop::CallShim { .. } => {
+                        let which = match last_rax { Some(a) => shims.iter().position(|&x| x == a).map(|p| p as u8).unwrap_or(255), None => 255 };
+                        *u = Uop::CallShim { which };
+                    }
+                    _ => {}
+                }
+            }
+            println!("U6UOPS {} {}", name, uops.iter().map(|u| format!("{:?}", u)).collect::<Vec<_>>().join(" ;; "));
         }
         Err(_) => println!("U6BYTES {} PANIC", name),
     }
@@ -277,6 +300,12 @@ def harnesses(tier, seed):
             hs.append({"name": MOD + n + "_emits", "function": "basejit::CodeGen::{emit_program, fix_relocations} + asm.rs emitters (symbolic execution of the real emitter)",
                        "clause": "the real emitter appends exactly the bytes the native stage recorded for this instance",
                        "properties": ["C03"], "bounded_by": "one concrete instruction", "complete_over": "-", "timeout": 1500})
+    for n, w, inp, idx, live in IOCALLS:
+        hs.append({"name": MOD + n, "function": "basejit::CodeGen::{emit_program (%s arm), emit_pre_call, emit_post_call} <%s> live=0x%x" % ("Inp" if inp else "Out", w, live),
+                   "clause": "live caller-saved temporaries pushed/popped symmetrically and preserved across the runtime call; rsp 16-byte aligned at the call and restored; shim receives (context, cell value | cell address); jumps to the termination relocation iff the shim reports failure, else falls through; the code writes no tape byte",
+                   "properties": ["C03", "C08", "C06"], "bounded_by": "cell offsets and live masks enumerated",
+                   "complete_over": "all machine states, all values the callee may leave in caller-saved registers", "timeout": t,
+                   "allow_unreachable": ["cg.code.len() == expect.len()", "cg.code[i] == expect[i]", "m.call_rsi =="]})
     for n, w, s in MOVS:
         hs.append({"name": MOD + n, "function": "basejit::CodeGen::emit_program (Mov arm, safe == false) <%s>" % w,
                    "clause": "unchecked move: rbp += shift * cell size and nothing else (no probe, no call, no other register or memory touched)",
